@@ -227,8 +227,9 @@ Lemma w_comment_in_prefix :
 Proof. eexists. vm_compute. split; reflexivity. Qed.
 
 Lemma w_const_map_semicolon :
-  exists f, parse_idl (idl "const map<i32,i32> m = {1:2; 3:4, 5:6;}") = POk f
-            /\ map c_value (fr_constants f) = [CMap [(CInt 1, CInt 2); (CInt 3, CInt 4); (CInt 5, CInt 6)]].
+  exists f, parse_idl (idl "const map<i32,i32> m = {1:2; 3:4, 5:6 7:8;}") = POk f
+            /\ map c_value (fr_constants f)
+               = [CMap [(CInt 1, CInt 2); (CInt 3, CInt 4); (CInt 5, CInt 6); (CInt 7, CInt 8)]].
 Proof. eexists. vm_compute. split; reflexivity. Qed.
 
 (** "a\\" : a string literal whose value ends in a backslash; "it\'s" : an escaped apostrophe inside double
